@@ -519,6 +519,9 @@ PyObject* base_gemm(PyObject *self, PyObject *args, PyObject *kwrds)
   if (k != ((transB == 'N') ? X_NROWS(B) : X_NCOLS(B)))
     PY_ERR_TYPE("dimensions of A and B do not match");
 
+  if (X_NROWS(C) != m || X_NCOLS(C) != n)
+    PY_ERR_TYPE("dimensions of C do not match the product");
+
   if (m == 0 || n == 0) return Py_BuildValue("");
 
   if (ao && convert_num[X_ID(A)](&a, ao, 1, 0)) err_type("alpha");
@@ -780,6 +783,10 @@ static PyObject* base_syrk(PyObject *self, PyObject *args, PyObject *kwrds)
 
   int n = (trans == 'N') ? X_NROWS(A) : X_NCOLS(A);
   int k = (trans == 'N') ? X_NCOLS(A) : X_NROWS(A);
+
+  if (X_NROWS(C) != n || X_NCOLS(C) != n)
+    PY_ERR_TYPE("C must be square of the order of the product");
+
   if (n == 0) return Py_BuildValue("");
 
   if (ao && convert_num[id](&a, ao, 1, 0)) err_type("alpha");
